@@ -47,13 +47,13 @@ fn ranges(net: &Net) -> Vec<(usize, usize)> {
     out
 }
 
-pub fn nets() -> Vec<Net> {
+pub fn nets(thorough: bool) -> Vec<Net> {
     let mut out = Vec::new();
     for base in bases() {
         let rs = ranges(&base);
         for (ri, &(a, b)) in rs.iter().enumerate() {
             // beyond the small bound: 4, 5, 6 and 9 iterations for the first two ranges of every base network
-            let ks: Vec<usize> = if ri < 2 { vec![1, 2, 3, 4, 5, 6, 9] } else { vec![1, 2, 3] };
+            let ks: Vec<usize> = if thorough || ri < 2 { vec![1, 2, 3, 4, 5, 6, 9] } else { vec![1, 2, 3] };
             for k in ks {
                 for acc in A5 {
                     for inskips in [false, true] {
@@ -183,8 +183,9 @@ pub fn check(seed: u64, case: &Kv, rep: &mut Report) {
 }
 
 pub fn run(ctx: &Ctx) -> Report {
-    let ns = nets();
-    let cs: Vec<Kv> = ns.iter().flat_map(|n| (0..2).map(move |v| Kv::new().put("net", n.name()).put("val", v))).collect();
+    let ns = nets(ctx.tier.thorough());
+    let vals = if ctx.tier.thorough() { 4 } else { 2 };
+    let cs: Vec<Kv> = ns.iter().flat_map(|n| (0..vals).map(move |v| Kv::new().put("net", n.name()).put("val", v))).collect();
     let seed = ctx.seed;
     let chunks: Vec<&[Kv]> = cs.chunks(64).collect();
     let parts = par_map(&chunks, |_, c| {
